@@ -751,7 +751,7 @@ fn stage(rep: &mut Report, name: &str, min_len: usize, max_len: usize, inits: &[
 pub fn run(tier: &str) -> i32 {
   let mut rep = Report::new("C08", tier, "model_checking");
   let thorough = rep.thorough();
-  let max_len: usize = if thorough { 7 } else { 6 };
+  let max_len: usize = if thorough { 8 } else { 6 };
   rep.assume("R4 (DESIGN Appendix B): an update() is 'one instruction (or one 4-clock tick while suspended), then the interrupt rule'; initial states are installed between two update() calls, so from IME=Enabled with an enabled request already pending the first instruction executes before the dispatch");
   rep.assume("EnableNext is promoted to Enabled when the next instruction completes, before that instruction's own effect on IME (EI;DI -> Disabled, EI;EI -> Enabled after the second EI, EI;RETI -> Enabled, EI;HALT suspends with IME Enabled); EI while already Enabled leaves Enabled; no promotion happens on suspended ticks");
   rep.assume("STOP with an enabled request already pending is woken by the interrupt rule of the same update(); HALT executed while IF & IE & 0x1F != 0 cuts the history (hardware quirk excluded by the property)");
@@ -771,23 +771,11 @@ pub fn run(tier: &str) -> i32 {
     }
   }
   let what = "run {Run,Halt,Stop} x IME {Enabled,Disabled,EnableNext} x (IF,IE) {none, requested-only, enabled-only, requested+enabled, requested/enabled disjoint} x A {00,04,1F}";
-  let (mut c, mut states) = stage(&mut rep, "lock-step", 1, max_len, &inits, what);
-  let mut programs = total_cases(max_len);
-  let mut deepest = max_len;
-  if thorough {
-    // one letter deeper from a reduced set of initial states: running, A = 0x04 (the
-    // value with which LDH (0F),A raises and LDH (FF),A enables the same request)
-    let running: Vec<Init> = inits.iter().filter(|i| i.run == RUN && i.a == 0x04).cloned().collect();
-    let (c8, s8) = stage(&mut rep, "lock-step-length-8", 8, 8, &running, "run Run x IME {Enabled,Disabled,EnableNext} x the same 5 (IF,IE) x A {04}");
-    rep.assume("length 8 is executed on a reduced initial-state set only (run = Run, A = 0x04: 15 states); lengths 1..=7 use all 135");
-    for i in 0..c.len() {
-      c[i] += c8[i];
-    }
-    rep.cov("states_in_length_8_stage", J::u(s8));
-    states = states.max(s8);
-    programs += total_cases(8) - total_cases(7);
-    deepest = 8;
-  }
+  let (c, states) = stage(&mut rep, "lock-step", 1, max_len, &inits, what);
+  let programs = total_cases(max_len);
+  let deepest = max_len;
+  // (the thorough tier used to run length 8 from a reduced set of initial states only; it now
+  // runs every length up to 8 from all 135)
   if c[K_BADBUS] != 0 {
     rep.machinery_error(format!("reference saw an access outside ROM / stack window / IF / IE, or lost lock-step bookkeeping, in {} histories", c[K_BADBUS]));
   }
